@@ -194,6 +194,7 @@ func c01Run(c *Ctx) {
 		}
 	})
 	// state carried from line to line: sequences of twin lines in one process
+	wordsInOtherRoles(c, "C01")
 	twinHistories(c, "C01", append(twinFlagSets, Flags{Y: true}, Flags{REmpty: true, N: true}))
 	// documents that repeat a field name
 	duplicateKeyCheck(c, "leak", "acct", []Flags{{}, {N: true, B: true, F: []string{"hr.staff"}}, {Y: true, I: true, W: true}, {REmpty: true}}, nil)
@@ -204,7 +205,7 @@ func c01Run(c *Ctx) {
 func init() {
 	register(&PropDef{
 		ID: "C01", Level: "exploration",
-		Rule:        "lines derived from the labelled grammar G by the choice-sequence explorer: L0 = 0 deviations (all slots x gates x containers x leaf kinds) under all 2^7 flag sets; L1 = <=1 non-default production over the full vocabulary; L2 = <=2; L3 = <=3 over class representatives (thorough); every SECRET leaf carries a unique canary; oracle = canary / number literal / true / remote address absent from the emitted line; plus one run of the pristine CLI per flag set over the L0 corpus compared line by line with the in-process output. distinct = distinct input lines inside the claim with at least one SECRET leaf" + scaleRule + twinRule + rootedRule,
+		Rule:        "lines derived from the labelled grammar G by the choice-sequence explorer: L0 = 0 deviations (all slots x gates x containers x leaf kinds) under all 2^7 flag sets; L1 = <=1 non-default production over the full vocabulary; L2 = <=2; L3 = <=3 over class representatives (thorough); every SECRET leaf carries a unique canary; oracle = canary / number literal / true / remote address absent from the emitted line; plus one run of the pristine CLI per flag set over the L0 corpus compared line by line with the in-process output. distinct = distinct input lines inside the claim with at least one SECRET leaf" + scaleRule + twinRule + rootedRule + wordsRule,
 		Assumptions: []string{"the label table of G (GRAMMAR.md) is the trusted base", "command verbs the tool does not declare are out of scope"},
 		Run:         c01Run,
 	})
